@@ -1,7 +1,7 @@
 (* C08 — every extension's encoder and decoder agree.
    Property theorems only; each closed by a lemma of Proofs/ExtP.v. The model
-   (Model/Ext.v) describes the code WITH fixes/C08-ech-grease-short-payload and
-   fixes/C08-utls-psk-read-without-session applied; the inputs on which the
+   (Model/Ext.v) describes the code WITH fixes/C08-ech-grease-short-payload,
+   fixes/C08-utls-psk-read-without-session and fixes/C08-one-byte-prefix-overflow applied; the inputs on which the
    unfixed code violated the property are kept below as Examples and as corpus
    cases of the runner.
 
@@ -82,6 +82,22 @@ Theorem C08_too_many_pskmodes : forall m n, 255 < blen m -> ext_len (EPSKKeyExch
   ext_read (EPSKKeyExchangeModes m) n = Err E_MANY_PSKMODES.
 Proof. exact too_many_pskmodes. Qed.
 Print Assumptions C08_too_many_pskmodes.
+(* ... and, since fixes/C08-one-byte-prefix-overflow, the other five one-byte prefixes. *)
+Theorem C08_too_many_points : forall p n, 255 < blen p -> ext_len (ESupportedPoints p) <= n ->
+  ext_read (ESupportedPoints p) n = Err E_MANY_POINTS.
+Proof. exact too_many_points. Qed.
+Theorem C08_too_long_alps_name : forall ps n, Exists (fun s => 255 < blen s) ps ->
+  ext_len (EApplicationSettings ps) <= n ->
+  ext_read (EApplicationSettings ps) n = Err E_ALPS_NAME_LONG
+  /\ ext_read (EApplicationSettingsNew ps) n = Err E_ALPS_NAME_LONG.
+Proof. exact alps_name_too_long. Qed.
+Theorem C08_too_long_renegotiated_connection : forall r c n, 255 < blen c -> ext_len (ERenegotiationInfo r c) <= n ->
+  ext_read (ERenegotiationInfo r c) n = Err E_RENEG_LONG.
+Proof. exact renegotiated_connection_too_long. Qed.
+Theorem C08_too_many_token_binding_params : forall ma mi p n, 255 < blen p ->
+  ext_len (EFakeTokenBinding ma mi p) <= n -> ext_read (EFakeTokenBinding ma mi p) n = Err E_MANY_TB_PARAMS.
+Proof. exact too_many_token_binding_params. Qed.
+Print Assumptions C08_too_many_token_binding_params.
 
 (* Read panics only where TransportParameters.Marshal does (C24). *)
 Theorem C08_read_no_panic : forall e n, (forall tps, e <> EQUICTransportParameters tps) -> is_panic (ext_read e n) = false.
@@ -114,6 +130,18 @@ Proof. split; vm_compute; reflexivity. Qed.
 Example C08_ex_limits : wf_ext (ESupportedVersions (repeat 772 127)) = true
   /\ 255 < 2 * blen (repeat 772 128).
 Proof. split; vm_compute; reflexivity. Qed.
+(* the over-limit witnesses of the C02 boundary table: 256 entries used to give a length byte of 0 *)
+Example C08_ex_over_one_byte :
+  ext_read (ESupportedPoints (zbytes 256)) 261 = Err E_MANY_POINTS
+  /\ ext_read (EApplicationSettings [zbytes 256]) 263 = Err E_ALPS_NAME_LONG
+  /\ Exists (fun s => 255 < blen s) [[104; 50]; zbytes 256]
+  /\ ext_read (ERenegotiationInfo 1 (zbytes 256)) 261 = Err E_RENEG_LONG
+  /\ ext_read (EFakeTokenBinding 0 13 (zbytes 256)) 263 = Err E_MANY_TB_PARAMS
+  /\ wf_ext (ESupportedPoints (zbytes 255)) = true /\ wf_ext (ESupportedPoints (zbytes 256)) = false.
+Proof.
+  repeat split; try (vm_compute; reflexivity).
+  apply Exists_cons_tl, Exists_cons_hd. vm_compute. reflexivity.
+Qed.
 
 (* The inputs on which the unfixed code failed (kept as runner corpus): GREASE ECH body with a
    15-byte payload — the unfixed Write accepted it and the object then had Len() = 65566 instead
